@@ -121,4 +121,40 @@ theorem leaked_tail_rejected (l : Lay) (ok : l.Ok) (junk : Bytes) (hj : junk ≠
 
 example : (C03.freshLay 1700000000).eod = 4096 := by decide
 
+/-! ### every state (session 5): the length delta of a removal on ANY table — any order, gaps, unused slots anywhere -/
+
+/-- the byte motion of `remove_block` alone: move the tail up over the removed range and truncate — the file loses exactly `size` bytes -/
+theorem remove_motion_length (v1 : Bytes) (off size : Nat) (h : off + size ≤ v1.length) :
+    (truncateAt (writeAt v1 off (v1.drop (off + size))) (off + (v1.drop (off + size)).length)).length + size = v1.length := by
+  simp only [truncateAt, List.length_take, writeAt_length, List.length_drop]
+  omega
+
+theorem remove_len (view tab : Bytes) (off size : Int) (h0 : 0 ≤ off) (h1 : 0 ≤ size) (hin : off + size ≤ view.length)
+    (hfit : slotPos 0 + tab.length ≤ view.length) :
+    (truncateAt (writeAt (writeAt view (slotPos 0) tab) off.toNat ((writeAt view (slotPos 0) tab).drop (off + size).toNat))
+      (off.toNat + ((writeAt view (slotPos 0) tab).drop (off + size).toNat).length)).length + size.toNat = view.length := by
+  have hv1 : (writeAt view (slotPos 0) tab).length = view.length := by
+    rw [writeAt_length]; omega
+  have hsum : (off + size).toNat = off.toNat + size.toNat := by omega
+  rw [hsum]
+  have := remove_motion_length (writeAt view (slotPos 0) tab) off.toNat size.toNat (by rw [hv1]; omega)
+  rw [hv1] at this
+  exact this
+
+/-- ANY state whose removed block lies inside the file and whose jump table lies inside the file: removing the block shrinks the file
+    by exactly that block's size — whatever the order of the table, whatever lies between the blocks. (The compact case is
+    `remove_shrinks`; this one needs no layout; that disk = view afterwards is `C10.remove_pending_any`.) -/
+theorem remove_shrinks_any (s : TdfSt) (t : Nat) (now : Int) (pos : Nat) (hpos : findType t s.entries = some pos)
+    (h0 : 0 ≤ (s.entries.getD pos unusedEntry).off) (h1 : 0 ≤ (s.entries.getD pos unusedEntry).size)
+    (hin : (s.entries.getD pos unusedEntry).off + (s.entries.getD pos unusedEntry).size ≤ s.view.length)
+    (hfit : slotPos 0 + ((removeBlock s t now).1.entries.flatMap Entry.enc).length ≤ s.view.length) :
+    (removeBlock s t now).1.view.length + (s.entries.getD pos unusedEntry).size.toNat = s.view.length := by
+  rw [removeBlock_entries s t now pos hpos] at hfit
+  unfold removeBlock
+  simp only [hpos]
+  exact remove_len _ _ _ _ h0 h1 hin hfit
+
+/-- non-vacuity of the byte motion: 10 bytes, remove [3,5) -/
+example : (truncateAt (writeAt [0,1,2,3,4,5,6,7,8,9] 3 (([0,1,2,3,4,5,6,7,8,9] : Bytes).drop 5)) (3 + 5)) = [0,1,2,5,6,7,8,9] := by decide
+
 end Tdf.C09
